@@ -384,6 +384,16 @@ func build(r *R) error {
 		res = mkUserWrap(r, k0)
 	case "mark":
 		res = errors.Mark(k0, ks[1])
+		if hopStreamsOff && ks[1] != nil {
+			// a reference that is itself a Mark contributes its stored mark: follow it
+			node := r.K[1]
+			for node.Op == "mark" && len(node.K) == 2 && node.K[1].built != nil {
+				node = node.K[1]
+			}
+			if node.built != nil {
+				r.S = []string{node.built.Error()}
+			}
+		}
 	case "secondary":
 		res = errors.WithSecondaryError(k0, ks[1])
 	case "combine":
